@@ -9,6 +9,7 @@ import json, os, shutil, subprocess, sys, time
 prop, wt, i = sys.argv[1], sys.argv[2], sys.argv[3]
 checks = sys.argv[4:] or [prop]
 ROOT = os.path.dirname(os.path.dirname(os.path.abspath(__file__)))
+REPO = os.environ.get("VERIF_REPO", "/repo")
 seed_dir = os.path.join(wt, "_seed")
 patch = os.path.join(seed_dir, f"patch_{i}.diff"); demo = os.path.join(seed_dir, f"demo_{i}.py"); note = os.path.join(seed_dir, f"note_{i}.md")
 
@@ -30,11 +31,11 @@ finally:
 meta["confirmed"] = meta["demo_without_change"] == 0 and meta["demo_with_change"] != 0 and "283 passed" in meta["tests_with_change"]
 print("confirmation:", {k: meta[k] for k in ("demo_without_change", "demo_with_change", "tests_with_change", "confirmed")})
 if meta["confirmed"]:
-    assert sh("git -C /repo status --porcelain --untracked-files=no").stdout.strip() == "", "/repo not clean"
-    r = sh(f"git -C /repo apply {patch}")
+    assert sh(f"git -C {REPO} status --porcelain --untracked-files=no").stdout.strip() == "", "/repo not clean"
+    r = sh(f"git -C {REPO} apply {patch}")
     if r.returncode:
-        r = sh(f"patch -p1 -F3 --no-backup-if-mismatch -d /repo < {patch}"); meta["applied_with_fuzz"] = True
-        if r.returncode: sh("git -C /repo checkout -- .")
+        r = sh(f"patch -p1 -F3 --no-backup-if-mismatch -d {REPO} < {patch}"); meta["applied_with_fuzz"] = True
+        if r.returncode: sh(f"git -C {REPO} checkout -- .")
     assert r.returncode == 0, r.stdout + r.stderr
     try:
         for c in checks:
@@ -50,7 +51,7 @@ if meta["confirmed"]:
                 meta["ran"].append(rec); print(rec["check"], "seed", seed, "exit", rec["exit"], lines[:1])
                 if r.returncode == 1: break
     finally:
-        sh("git -C /repo checkout -- .")
+        sh(f"git -C {REPO} checkout -- .")
     meta["detected_by"] = sorted({r["check"] for r in meta["ran"] if r["exit"] == 1})
 out = os.path.join(ROOT, "seeded", f"{prop}-{int(i) + int(os.environ.get('BANK_OFFSET', '0'))}")
 os.makedirs(out, exist_ok=True)
